@@ -359,11 +359,38 @@ def run(ctx, rep):
 
     # ---- C15.c dry-run ------------------------------------------------------------------------------
     dreach = {}
+    dargs = {}
+    full = SiteEffects(prog, cg, kinds=("W", "RM", "CREATE", "STAGE"))
+    full.compute()
 
     def dry_filter(body, bb, es):
         if body.path not in dreach:
-            dreach[body.path] = pathsens.reachable_under_refined(body, dry_forced, eval_expr=flag_eval("dry_run", True))
-        return es if bb in dreach[body.path] else set()
+            da = set()
+            dreach[body.path] = pathsens.reachable_under_refined(body, dry_forced, eval_expr=flag_eval("dry_run", True), dead_args_out=da)
+            dargs[body.path] = da
+        if bb not in dreach[body.path]:
+            return set()
+        # a helper that receives a Vec which is provably empty in dry-run mode (filled only under `!dry_run`) by shared
+        # reference: its loops over that parameter do not run - only the effects outside them count
+        for (cb, ai) in dargs.get(body.path, ()):
+            if cb != bb:
+                continue
+            t = body.term(bb)
+            H = prog.bodies.get(callee(t)) if "callee" in t else None
+            if H is None:
+                continue
+            dead = set()
+            fz = pathsens.empty_param_forcing(H, ai + 1, dead)
+            if fz is None:
+                continue
+            hr = pathsens.reachable_under(H, lambda b_, x_: fz.get(x_))
+            kept = set()
+            for hb, hes in full.site_eff.get(H.path, {}).items():
+                if hb in hr and hb not in dead:
+                    kept |= set(hes)
+            keys_kept = {e[2] for e in kept}
+            return {e for e in es if e[2] in keys_kept}
+        return es
 
     def no_dryrun_backend(body, t, target):
         # effects below DryRunBackend's own methods are decided by C15.c2
@@ -377,8 +404,6 @@ def run(ctx, rep):
     rep.floor("C15.c", "staging API functions (FLUSH)", nflush, 11)
     dry = SiteEffects(prog, cg, kinds=("W", "RM", "CREATE", "STAGE"), site_filter=dry_filter)
     dry.compute()
-    full = SiteEffects(prog, cg, kinds=("W", "RM", "CREATE", "STAGE"))
-    full.compute()
     # functions that read a dry_run flag (test it) - enumerated from the facts
     readers = []
     for b in prog.by_crate["rustic_core"]:
